@@ -90,6 +90,13 @@ func propEviction(c *Case) {
 	c.Tracef("backend=%s strategy=%s CountSoftLimit=%d HeapInUseSoftLimit=%d SysMemSoftLimit=%d EvictionNeeded=%v EvictFraction=%v cycles=%d",
 		kind, stratName, limit, heapLimit, sysLimit, needScript, frac, cycles)
 
+	// the items-count reporter may publish between cleanup cycles (a cycle must use the current count)
+	reportInterval := farFuture
+	if c.Weighted("items-report", 2, 1) == 1 {
+		reportInterval = 25 * time.Minute
+		c.Class("items-count-reported-between-cycles")
+	}
+
 	c.Bubble(func() {
 		tr := newCountTracker()
 		interval := time.Hour
@@ -97,7 +104,7 @@ func propEviction(c *Case) {
 		cycle := 0
 
 		cfg := cache.Config{
-			Name: "ev", Stats: tr, ItemsCountReportInterval: farFuture,
+			Name: "ev", Stats: tr, ItemsCountReportInterval: reportInterval,
 			TimeToLive: 1000 * time.Hour, ExpirationJitter: -1,
 			DeleteExpiredJobInterval: interval, DeleteExpiredAfter: farFuture,
 			CountSoftLimit: limit, HeapInUseSoftLimit: heapLimit, SysMemSoftLimit: sysLimit, EvictFraction: frac, EvictionStrategy: strategy,
@@ -188,8 +195,14 @@ func propEviction(c *Case) {
 						continue // fresh reads only
 					}
 
-					r := be.Read(bg, []byte(k))
-					c.Assert(r.Err == nil, "read-fresh", "population read of %s: %v", k, r.Err)
+					if be.HasLoadStore() && c.Weighted("serve-via", 3, 1) == 1 {
+						_, ok := be.Load([]byte(k)) // Load serves an entry just like Read
+						c.Assert(ok, "read-fresh", "population Load of %s missed", k)
+						c.Class("served-via-Load")
+					} else {
+						r := be.Read(bg, []byte(k))
+						c.Assert(r.Err == nil, "read-fresh", "population read of %s: %v", k, r.Err)
+					}
 
 					if strategy == cache.EvictLeastRecentlyUsed {
 						pop[k].metric = time.Now().UnixNano()
@@ -260,6 +273,7 @@ func propEviction(c *Case) {
 			}
 
 			c.Assert(evicted == removed, "evict-metric", "cache_evict grew by %d, %d entries were removed", evicted, removed)
+			c.Assert(tr.get("ev", cache.MetricDelete) == 0, "evict-counted-as-delete", "cache_delete = %v although nothing was removed by Delete/DeleteAll (evictions have their own metric)", tr.get("ev", cache.MetricDelete))
 
 			// Rank: every removed entry ranks no higher than every kept entry.
 			maxRemoved, minKept := int64(math.MinInt64), int64(math.MaxInt64)
